@@ -200,6 +200,21 @@ def run(ctx):
            "symbol = source_alphabet.decode(old_code)" in ast.unparse(am) and "new_code = target_alphabet.encode(symbol)" in ast.unparse(am)
            and "self._mapper[old_code] = new_code" in ast.unparse(am),
            "mapping must go through the symbol", am.lineno, nontrivial=False)
+    # the identity shortcut: mapping c -> target.encode(source.decode(c)) is the identity exactly when the
+    # alphabet that *encodes* extends the alphabet that *decodes* (X.extends(Y): Y's symbols are a prefix of X's)
+    enc_recv = {dotted(c_.func.value) for c_ in calls(am) if isinstance(c_.func, ast.Attribute) and c_.func.attr == "encode"}
+    dec_recv = {dotted(c_.func.value) for c_ in calls(am) if isinstance(c_.func, ast.Attribute) and c_.func.attr == "decode"}
+    ext = [c_ for c_ in calls(am) if isinstance(c_.func, ast.Attribute) and c_.func.attr == "extends" and len(c_.args) == 1]
+    ctx.need(len(ext) == 1 and len(enc_recv) == 1 and len(dec_recv) == 1, "AlphabetMapper.__init__: extends test, encode and decode receivers")
+    ctx.ob("R3.mapper-identity-condition", ALPH, "AlphabetMapper.__init__", ext[0],
+           {dotted(ext[0].func.value)} == enc_recv and {dotted(ext[0].args[0])} == dec_recv,
+           f"codes may pass through unmapped only if the encoding alphabet ({sorted(enc_recv)[0]}) extends the decoding one "
+           f"({sorted(dec_recv)[0]}); the reverse test lets codes outside the target alphabet through", ext[0].lineno)
+    flag_true = [st for st in stmts(am) if isinstance(st, ast.If) and any(c_ is ext[0] for c_ in ast.walk(st.test))]
+    okflag = bool(flag_true) and any(ast.unparse(b) == "self._necessary_mapping = False" for b in flag_true[0].body) \
+        and not isinstance(flag_true[0].test, ast.UnaryOp)
+    ctx.ob("R3.mapper-identity-condition", ALPH, "AlphabetMapper.__init__", "extends -> no mapping", okflag,
+           "the shortcut is taken when the extends test is true", am.lineno)
     # dtype ladders: thresholds are the sizes of the unsigned types, compared with <=
     for rel, q in ((ALPH, "AlphabetMapper._dtype"), (SEQ, "Sequence.dtype")):
         f = ctx.src(rel).func(q)
@@ -265,6 +280,7 @@ def run(ctx):
     fresh = [st for st in stmts(cp) if isinstance(st, ast.Assign) and ast.unparse(st.targets[0]) == "clone.code"]
     ctx.ob("R5.fresh", SEQ, "Sequence.copy", "clone.code = np.copy(self.code)",
            any(copycontract.is_fresh(st.value) is True for st in fresh), "copy() must copy the sequence code", cp.lineno)
+    shallow_copy_mutation(ctx, "R5.shallow-copy-mutated", [SEQ, TYPES, ALPH, CODON])
     rv = s.func("Sequence.reverse")
     under_flag = [st for st in stmts(rv) if isinstance(st, ast.If) and "copy" in names_in(st.test)]
     ok = False
@@ -327,7 +343,75 @@ def run(ctx):
            bool(names_in(osrc[0].value) & coupled), "the permutation must be computed from one of the coupled lists", osrc[0].lineno)
 
 
+_MUTATORS = {"append", "extend", "insert", "update", "sort", "fill", "remove", "pop", "clear", "add", "setdefault", "put", "resize", "itemset"}
+
+
+def shallow_copy_mutation(ctx, rule, rels):
+    """a local bound to `copy.copy(obj)` (or to `obj` itself) shares obj's attribute objects: writing *into*
+    such an attribute (subscript store, augmented assignment, mutator call) changes obj as well"""
+    n = 0
+
+    def scan(rel, q, f):
+        nonlocal n
+        shallow = {}
+        for st in stmts(f):
+            if isinstance(st, ast.Assign) and len(st.targets) == 1 and isinstance(st.targets[0], ast.Name) and isinstance(st.value, ast.Call) \
+                    and call_name(st.value) in ("copy.copy", "copy") and len(st.value.args) == 1:
+                shallow[st.targets[0].id] = ast.unparse(st.value.args[0])
+        for v, origin in shallow.items():
+            n += 1
+            bad = []
+            for node in walk_local(f):
+                tgt = None
+                if isinstance(node, ast.Assign):
+                    tgt = [t for t in node.targets if isinstance(t, ast.Subscript)]
+                elif isinstance(node, ast.AugAssign):
+                    tgt = [node.target]
+                for t in tgt or []:
+                    base = t
+                    depth = 0
+                    while isinstance(base, (ast.Subscript, ast.Attribute)):
+                        depth += isinstance(base, ast.Attribute)
+                        base = base.value
+                    direct_attr_aug = isinstance(node, ast.AugAssign) and isinstance(t, ast.Attribute) and isinstance(t.value, ast.Name)
+                    if isinstance(base, ast.Name) and base.id == v and depth >= 1 and (isinstance(t, ast.Subscript) or direct_attr_aug):
+                        bad.append(ast.unparse(node))
+                if isinstance(node, ast.Call) and isinstance(node.func, ast.Attribute) and node.func.attr in _MUTATORS:
+                    b = node.func.value
+                    if isinstance(b, ast.Attribute) and isinstance(b.value, ast.Name) and b.value.id == v:
+                        bad.append(ast.unparse(node))
+            ctx.ob(rule, rel, q, f"{v} = copy.copy({origin})", not bad,
+                   f"`{v}` is a shallow copy of `{origin}`: `{bad[0] if bad else ''}` writes into an object both share, so the original changes too "
+                   "(copy.deepcopy or a copy of that attribute is needed)", f.lineno)
+
+    for rel in rels:
+        src = ctx.src(rel)
+        for q, f in src.funcs.items():
+            scan(rel, q, f)
+    # positive control: the rule must recognise the construct it forbids
+    probe = ast.parse("def f(self):\n    t = copy.copy(self)\n    t._codons[1] = 2\n    return t\n").body[0]
+    before = len(ctx.findings)
+    scan("<control>", "f", probe)
+    if len(ctx.findings) != before + 1:
+        raise AnalysisError("positive control of shallow-copy-mutated failed")
+    ctx.findings.pop()
+    ctx.obligations.pop()
+    # derived tables must start from a deep copy
+    cod = ctx.src(CODON)
+    for q in ("CodonTable.with_codon_mappings", "CodonTable.with_start_codons"):
+        f = cod.func(q)
+        src_ = [st.value for st in stmts(f) if isinstance(st, ast.Assign) and isinstance(st.value, ast.Call)
+                and call_name(st.value) in ("copy.deepcopy", "copy.copy", "self.copy")]
+        ret = [st.value for st in stmts(f) if isinstance(st, ast.Return)]
+        ctx.ob(rule, CODON, q, "derived table starts from copy.deepcopy(self)",
+               len(src_) == 1 and (call_name(src_[0]) == "copy.deepcopy" or not any(
+                   isinstance(x, (ast.Subscript,)) and isinstance(x.ctx, ast.Store) for x in ast.walk(f))),
+               "a table derived from another one must not share the codon array with it (the default table is a module-level singleton)", f.lineno)
+
+
 MUTANTS = [
+    Mutant("codon-table-shallow-copy", CODON, "        # Copy this table and replace the codon\n        new_table = copy.deepcopy(self)", "        # Copy this table and replace the codon\n        new_table = copy.copy(self)", "R5.shallow-copy-mutated"),
+    Mutant("mapper-identity-reversed", ALPH, "if target_alphabet.extends(source_alphabet):", "if source_alphabet.extends(target_alphabet):", "R3.mapper-identity-condition"),
     Mutant("compl-m", TYPES, '"M": "K",', '"M": "M",', "R1.complement-iupac"),
     Mutant("decode-gt", ALPH, "    def decode(self, code):\n", "    def decode(self, code):\n        pass\n", "R2.range-guard-polarity") if False else
     Mutant("alphabet-decode-gt", ALPH, "        if code < 0 or code >= len(self._symbols):\n            raise AlphabetError(f\"'{code:d}' is not a valid code\")\n        return self._symbols[code]",
